@@ -1,12 +1,393 @@
-use vh_gen::{engine::Eng, Ev};
-fn main() {
-    let src = std::env::args().nth(1).unwrap();
-    let src = std::fs::read_to_string(&src).unwrap();
-    let evs: Vec<Ev> = serde_json::from_str(&std::fs::read_to_string(std::env::args().nth(2).unwrap()).unwrap()).unwrap();
-    let mut e = match Eng::new(&src) { Ok(e) => e, Err(x) => { println!("ERR {}", x); return; } };
-    for ev in &evs {
-        let out = e.process(ev).unwrap();
-        println!("in {} {:?}", ev.ty, ev.fields);
-        for o in out { println!("   out {} {:?}", o.event_type, vh_gen::OutEv::from_event(&o).fields); }
+//! C08 Numeric comparisons `< <= > >=` agree with the mathematical order for every
+//! int/float mix, in `.where`, `.emit`, `.having`, `.pattern` (+ the two evaluator
+//! functions called directly).
+use proptest::prelude::*;
+use serde::{Deserialize, Serialize};
+use std::cmp::Ordering;
+use std::collections::BTreeSet;
+use vh_common::{Check, Outcome};
+use vh_gen::{engine::Eng, Ev, OutEv, V};
+
+const OPS: [(&str, &str); 4] = [("lt", "<"), ("le", "<="), ("gt", ">"), ("ge", ">=")];
+
+#[derive(Clone, Debug, Serialize, Deserialize)]
+struct Case {
+    /// 0: field OP field, 1: field OP literal, 2: literal OP field
+    shape: u8,
+    /// literal used by shapes 1 and 2 (finite)
+    lit: V,
+    /// operand pairs; with shape 1 the right operand is `lit`, with shape 2 the left one
+    pairs: Vec<(V, V)>,
+    /// replay-only: also judge the classes excluded as known findings
+    #[serde(default)]
+    raw: bool,
+}
+
+// ------------------------------------------------------------------ exact oracle
+
+const TWO63: f64 = 9223372036854775808.0;
+
+/// exact order of the integer `i` relative to the non-NaN float `f`
+fn cmp_int_float(i: i64, f: f64) -> Ordering {
+    if f == f64::INFINITY {
+        return Ordering::Less;
     }
+    if f == f64::NEG_INFINITY {
+        return Ordering::Greater;
+    }
+    let t = f.trunc(); // exact
+    if t >= TWO63 {
+        return Ordering::Less;
+    }
+    if t < -TWO63 {
+        return Ordering::Greater;
+    }
+    let ti = t as i128; // exact: |t| <= 2^63
+    match (i as i128).cmp(&ti) {
+        Ordering::Equal => {
+            let frac = f - t; // exact, same sign as f
+            if frac > 0.0 {
+                Ordering::Less
+            } else if frac < 0.0 {
+                Ordering::Greater
+            } else {
+                Ordering::Equal
+            }
+        }
+        o => o,
+    }
+}
+
+fn cmp_exact(a: &V, b: &V) -> Ordering {
+    match (a, b) {
+        (V::Int(x), V::Int(y)) => x.cmp(y),
+        (V::Float(x), V::Float(y)) => x.0.partial_cmp(&y.0).expect("NaN excluded"),
+        (V::Int(x), V::Float(y)) => cmp_int_float(*x, y.0),
+        (V::Float(x), V::Int(y)) => cmp_int_float(*y, x.0).reverse(),
+        _ => unreachable!(),
+    }
+}
+
+fn expected(op: usize, o: Ordering) -> bool {
+    match op {
+        0 => o == Ordering::Less,
+        1 => o != Ordering::Greater,
+        2 => o == Ordering::Greater,
+        _ => o != Ordering::Less,
+    }
+}
+
+// ------------------------------------------------------------------ rendering
+
+fn lit_text(v: &V) -> String {
+    match v {
+        V::Int(i) if *i == i64::MIN => "(-9223372036854775807 - 1)".to_string(),
+        V::Int(i) if *i < 0 => format!("(-{})", i.unsigned_abs()),
+        V::Int(i) => format!("{}", i),
+        V::Float(f) => {
+            let a = f.0.abs();
+            let mut s = format!("{:?}", a);
+            if !s.contains('.') {
+                // "1e300" -> "1.0e300" (grammar wants digits "." digits)
+                match s.find('e') {
+                    Some(p) => s.insert_str(p, ".0"),
+                    None => s.push_str(".0"),
+                }
+            }
+            if f.0.is_sign_negative() {
+                format!("(-{})", s)
+            } else {
+                s
+            }
+        }
+        _ => unreachable!(),
+    }
+}
+
+fn operands(c: &Case, field_l: &str, field_r: &str) -> (String, String) {
+    match c.shape {
+        0 => (field_l.to_string(), field_r.to_string()),
+        1 => (field_l.to_string(), lit_text(&c.lit)),
+        _ => (lit_text(&c.lit), field_r.to_string()),
+    }
+}
+
+fn program(c: &Case) -> String {
+    let mut s = String::new();
+    let (l, r) = operands(c, "x", "y");
+    let (pl, pr) = operands(c, "first(events).x", "first(events).y");
+    for (name, sym) in OPS {
+        s.push_str(&format!("stream W{n} = A.where({l} {o} {r}).emit(id: id)\n", n = name, o = sym, l = l, r = r));
+        s.push_str(&format!(
+            "stream H{n} = A.window(1).aggregate(id: last(id), x: last(x), y: last(y)).having({l} {o} {r}).emit(id: id)\n",
+            n = name,
+            o = sym,
+            l = l,
+            r = r
+        ));
+        s.push_str(&format!("stream P{n} = A.pattern(p: events => {l} {o} {r}).emit(id: id)\n", n = name, o = sym, l = pl, r = pr));
+    }
+    s.push_str(&format!("stream Em = A.emit(id: id, lt: {l} < {r}, le: {l} <= {r}, gt: {l} > {r}, ge: {l} >= {r})\n", l = l, r = r));
+    s
+}
+
+// ------------------------------------------------------------------ judging
+
+#[derive(Debug)]
+enum Got {
+    True,
+    False,
+    /// no value / field absent
+    Nothing,
+}
+
+/// root-cause signature of one wrong evaluation
+fn signature(family: &str, a: &V, b: &V, op: usize, got: &Got) -> String {
+    let mixed = a.type_tag() != b.type_tag();
+    let opgrp = if op == 1 || op == 3 { "le-ge" } else { "lt-gt" };
+    if !mixed {
+        return format!("{}:same-type-{}:{}", family, if matches!(got, Got::Nothing) { "no-value" } else { "wrong" }, opgrp);
+    }
+    if matches!(got, Got::Nothing) {
+        return format!("{}:mixed-no-value:{}", family, opgrp);
+    }
+    let big = match (a, b) {
+        (V::Int(i), _) | (_, V::Int(i)) => i.unsigned_abs() > (1u64 << 53),
+        _ => false,
+    };
+    if big {
+        format!("{}:mixed-wrong-above-2p53", family)
+    } else {
+        format!("{}:mixed-wrong", family)
+    }
+}
+
+/// the class recorded as a known finding (eval_binary_op has no Int/Float arms for <= and >=,
+/// pinned by the repository's own unit tests); excluded unless `raw`
+fn known_excluded(family: &str, a: &V, b: &V, op: usize) -> bool {
+    family == "patt" && a.type_tag() != b.type_tag() && (op == 1 || op == 3)
+}
+
+fn run(c: &Case) -> Outcome {
+    let src = program(c);
+    let mut eng = match Eng::new(&src) {
+        Ok(e) => e,
+        Err(e) => return Outcome::discard(format!("program rejected: {} :: {}", e, src.replace('\n', " | "))),
+    };
+    let mut fails: Vec<(String, String)> = vec![];
+    let mut excluded = 0u32;
+    let mut classes: BTreeSet<&'static str> = BTreeSet::new();
+    let mut mixed_any = false;
+
+    for (k, (pa, pb)) in c.pairs.iter().enumerate() {
+        let (a, b) = match c.shape {
+            0 => (pa.clone(), pb.clone()),
+            1 => (pa.clone(), c.lit.clone()),
+            _ => (c.lit.clone(), pb.clone()),
+        };
+        let ord = cmp_exact(&a, &b);
+        let mixed = a.type_tag() != b.type_tag();
+        mixed_any |= mixed;
+        if mixed {
+            classes.insert("mixed");
+            if ord == Ordering::Equal {
+                classes.insert("mixed_equal");
+            }
+            if let (V::Int(i), _) | (_, V::Int(i)) = (&a, &b) {
+                if i.unsigned_abs() > (1u64 << 53) {
+                    classes.insert("mixed_int_above_2p53");
+                }
+            }
+        }
+        for v in [&a, &b] {
+            if let V::Float(f) = v {
+                if f.0.fract() != 0.0 {
+                    classes.insert("fractional");
+                }
+                if f.0 == 0.0 && f.0.is_sign_negative() {
+                    classes.insert("neg_zero");
+                }
+                if f.0.is_infinite() {
+                    classes.insert("infinite");
+                }
+            }
+        }
+        let id = k as i64 + 1;
+        let ev = Ev::new("A", k as i64).with("id", V::Int(id)).with("x", pa.clone()).with("y", pb.clone());
+        let outs: Vec<OutEv> = match eng.process(&ev) {
+            Ok(o) => vh_gen::engine::norm(&o),
+            Err(e) => return Outcome::fail("engine-error", e),
+        };
+        let has = |stream: &str| outs.iter().any(|o| o.ty == stream && o.get_int("id") == Some(id));
+        let em = outs.iter().find(|o| o.ty == "Em" && o.get_int("id") == Some(id));
+        // direct evaluator calls
+        let (lx, rx) = {
+            use varpulis_core::ast::Expr;
+            let lit = |v: &V| match v {
+                V::Int(i) => Expr::Int(*i),
+                V::Float(f) => Expr::Float(f.0),
+                _ => unreachable!(),
+            };
+            match c.shape {
+                0 => (Expr::Ident("x".into()), Expr::Ident("y".into())),
+                1 => (Expr::Ident("x".into()), lit(&c.lit)),
+                _ => (lit(&c.lit), Expr::Ident("y".into())),
+            }
+        };
+        let event = ev.to_event();
+        for (op, (name, _)) in OPS.iter().enumerate() {
+            let want = expected(op, ord);
+            let binop = [varpulis_core::ast::BinOp::Lt, varpulis_core::ast::BinOp::Le, varpulis_core::ast::BinOp::Gt, varpulis_core::ast::BinOp::Ge][op];
+            let as_got = |v: Option<varpulis_core::Value>| match v {
+                Some(varpulis_core::Value::Bool(true)) => Got::True,
+                Some(varpulis_core::Value::Bool(false)) => Got::False,
+                _ => Got::Nothing,
+            };
+            let filt = |passed: bool| if passed { Got::True } else { Got::False };
+            let direct_expr = as_got(varpulis_runtime::engine::eval_filter_expr(
+                &varpulis_core::ast::Expr::Binary { op: binop, left: Box::new(lx.clone()), right: Box::new(rx.clone()) },
+                &event,
+                varpulis_runtime::sequence::SequenceContext::empty(),
+            ));
+            let direct_patt = as_got(varpulis_runtime::engine::evaluator::eval_binary_op(&binop, &a.to_value(), &b.to_value()));
+            let emit_got = match em.and_then(|o| o.get(name)) {
+                Some("true") => Got::True,
+                Some("false") => Got::False,
+                _ => Got::Nothing,
+            };
+            // (family, context, observed)
+            let obs: Vec<(&str, &str, Got)> = vec![
+                ("expr", "eval_filter_expr", direct_expr),
+                ("expr", ".emit", emit_got),
+                ("expr", ".where", filt(has(&format!("W{}", name)))),
+                ("expr", ".having", filt(has(&format!("H{}", name)))),
+                ("patt", "eval_binary_op", direct_patt),
+                ("patt", ".pattern", filt(has(&format!("P{}", name)))),
+            ];
+            for (family, ctx, got) in obs {
+                let ok = matches!((&got, want), (Got::True, true) | (Got::False, false));
+                if ok {
+                    continue;
+                }
+                if !c.raw && known_excluded(family, &a, &b, op) {
+                    excluded += 1;
+                    continue;
+                }
+                // a filter context cannot tell "no value" from false: attribute via the direct call of the same family
+                let sig_got = match (ctx, &got) {
+                    (".where" | ".having", Got::False) if family == "expr" => {
+                        let d = as_got(varpulis_runtime::engine::eval_filter_expr(
+                            &varpulis_core::ast::Expr::Binary { op: binop, left: Box::new(lx.clone()), right: Box::new(rx.clone()) },
+                            &event,
+                            varpulis_runtime::sequence::SequenceContext::empty(),
+                        ));
+                        if matches!(d, Got::Nothing) {
+                            Got::Nothing
+                        } else {
+                            got
+                        }
+                    }
+                    (".pattern", Got::True) => {
+                        let d = as_got(varpulis_runtime::engine::evaluator::eval_binary_op(&binop, &a.to_value(), &b.to_value()));
+                        if matches!(d, Got::Nothing) {
+                            Got::Nothing
+                        } else {
+                            got
+                        }
+                    }
+                    _ => got,
+                };
+                // .pattern differs although eval_binary_op on the same values is right: the operand expression itself is the problem
+                if ctx == ".pattern" {
+                    let d = as_got(varpulis_runtime::engine::evaluator::eval_binary_op(&binop, &a.to_value(), &b.to_value()));
+                    if matches!((&d, want), (Got::True, true) | (Got::False, false)) {
+                        let neg_lit = c.shape != 0 && matches!(&c.lit, V::Int(i) if *i < 0) || matches!(&c.lit, V::Float(f) if c.shape != 0 && f.0.is_sign_negative());
+                        fails.push((
+                            format!("patt:operand-expression-has-no-value:{}", if neg_lit { "negative-literal" } else { "other" }),
+                            format!("{:?} {} {:?} in .pattern (shape {}, literal {:?}): mathematically {}, event kept={:?}; eval_binary_op on the values is right", a, OPS[op].1, b, c.shape, c.lit, want, sig_got),
+                        ));
+                        continue;
+                    }
+                }
+                fails.push((
+                    signature(family, &a, &b, op, &sig_got),
+                    format!("{:?} {} {:?} in {}: mathematically {}, observed {:?} (shape {})", a, OPS[op].1, b, ctx, want, sig_got, c.shape),
+                ));
+            }
+        }
+        // stated consequence: a >= b  <=>  a > b or numerically equal  (oracle side; holds by construction of `expected`)
+        debug_assert_eq!(expected(3, ord), expected(2, ord) || ord == Ordering::Equal);
+    }
+    if let Some((sig, detail)) = fails.into_iter().min() {
+        return Outcome::fail(sig, detail);
+    }
+    let mut out = Outcome::pass().nontrivial(mixed_any).class(format!("shape{}", c.shape));
+    for cl in classes {
+        out = out.class(cl);
+    }
+    out.class_if(excluded > 0, "excluded:patt-mixed-le-ge(known)")
+}
+
+// ------------------------------------------------------------------ generator
+
+fn num() -> impl Strategy<Value = V> {
+    prop_oneof![
+        1 => vh_gen::any_int().prop_map(V::Int),
+        1 => vh_gen::any_float().prop_map(|f| if f.is_nan() { V::f(31.5) } else { V::f(f) }),
+    ]
+}
+
+/// a pair built around one integer: the int against floats at / next to its value
+fn near_pair() -> impl Strategy<Value = (V, V)> {
+    (vh_gen::any_int(), 0u8..6, any::<bool>(), any::<bool>()).prop_map(|(i, how, swap, both_float)| {
+        let f0 = i as f64;
+        let f = match how {
+            0 => f0,
+            1 => f0.next_up(),
+            2 => f0.next_down(),
+            3 => f0 + 0.5,
+            4 => f0 - 0.5,
+            _ => -f0,
+        };
+        let a = if both_float { V::f(f0) } else { V::Int(i) };
+        let b = V::f(f);
+        if swap {
+            (b, a)
+        } else {
+            (a, b)
+        }
+    })
+}
+
+fn pair() -> impl Strategy<Value = (V, V)> {
+    prop_oneof![
+        3 => near_pair(),
+        2 => (num(), num()),
+        1 => (vh_gen::any_int(), vh_gen::any_int()).prop_map(|(a, b)| (V::Int(a), V::Int(b))),
+    ]
+}
+
+fn strat() -> impl Strategy<Value = Case> {
+    (0u8..3, pair(), any::<bool>(), proptest::collection::vec(pair(), 1..5)).prop_map(|(shape, lp, pick, pairs)| {
+        let mut lit = if pick { lp.0 } else { lp.1 };
+        if let V::Float(f) = &lit {
+            if !f.0.is_finite() {
+                lit = V::f(9007199254740993.0);
+            }
+        }
+        if lit == V::Int(i64::MIN) {
+            // has no literal form (only `-9223372036854775807 - 1`, an arithmetic expression, which the
+            // .pattern evaluator does not support at all); i64::MIN still occurs as a field value
+            lit = V::Int(i64::MIN + 1);
+        }
+        Case { shape, lit, pairs, raw: false }
+    })
+}
+
+fn main() {
+    let check = Check::new("C08", "exploration");
+    check.rule("operand pairs from int/float boundary pools (2^53+-1, i64 extremes vs neighbouring floats, +-0, fractional, +-inf; NaN excluded), 3/6 of pairs are an integer against the float at/next to its value; operands as field-vs-field, field-vs-literal, literal-vs-field; every pair is judged for all of < <= > >= in .where, .emit, .having (after last()), .pattern through the Engine API and through eval_filter_expr / eval_binary_op directly; oracle = exact order via i128/fraction decomposition; non-trivial = case has a mixed int/float pair");
+    check.assume("exact oracle in the harness (trunc/fract decomposition); last() aggregate returns the operand unchanged; VPL literal rendering round-trips (checked: unparsable program = discard)");
+    check.explore("contexts", strat, 1_500, 40_000, run);
+    check.finish();
 }
